@@ -5,6 +5,9 @@ from .c09 import sym_state, boundary, boundary_jobs
 PROPERTY = "C10"
 CROSS_CHECK = True      # thorough: dumped assertion queries are re-decided by z3 4.8.12 and cvc5 1.0
 LEVEL = "model_checking"
+TECHNIQUE = ("symbolic execution of the real functions over z3 terms (SMT, bounded; one inductive step from an arbitrary valid state + bounded histories); "
+             "counterexamples replayed concretely.  That the rotation rule does not depend on the geometry is decided by a sweep over a grid of concrete "
+             "(est_elements, rate, counter) configurations with symbolic bit arrays and positions - there the float statistics run as real Python floats")
 STUBS = ["array -> SymArray('B')"]
 ASSUMPTIONS = [
     "window / history harnesses: sub-filters use a one-hash geometry (rate 0.5; thorough also rate 0.3 / two hashes); that rotation does not depend on the geometry is decided separately by the boundary sweep shared with C09 (full queue of 2, newest counter concrete at est-1 / est, real float code, est 1..64 x 10 rates)",
